@@ -146,6 +146,7 @@ class Ctx:
         self.specdefs: dict[str, ast.FunctionDef] = {}
         self.specfuncs: dict[str, tuple] = {}
         self.axioms_z3: list = []
+        self.axiom_meta: list = []  # parallel to axioms_z3: ("def", spec function) | ("axiom", name)
         self.consts_cache: dict[str, dict] = {}
         self.guards: list = []
         self._depth: dict = {}
@@ -351,8 +352,10 @@ class Ctx:
             app = fn(*[a.t for a in args])
             consts = [a.t for a in args]
             self.axioms_z3.append(z3.ForAll(consts, app == body.t, patterns=[app]))
+            self.axiom_meta.append(("def", name))
             if recursive:
                 self.axioms_z3.append(z3.ForAll(consts, app == low(*consts), patterns=[app]))
+                self.axiom_meta.append(("def", name))
 
     def _calls(self, name):
         fd = self.specdefs.get(name)
@@ -451,6 +454,7 @@ class Ctx:
                     # small-scope mode expands spec calls in place, so they cannot serve as triggers
                     body = z3.ForAll(consts, body)
             self.axioms_z3.append(body)
+            self.axiom_meta.append(("axiom", ax.name))
 
 
 _id = [0]
@@ -784,7 +788,8 @@ class Pure:
                     return VInt(z3.Length(a.t))
                 dt, ks = triple_sort(a.kind)
                 c = "abc".index(name[2])
-                d = self.ev(e.args[1]).t
+                dv = self.ev(e.args[1])
+                d = (dv.inner if isinstance(dv, VOpt) else dv).t
                 return wrap(ks[c], dt.accessor(0, c)(a.t[d]))
             if name == "prefix_of":
                 a, b = self.ev(e.args[0]), self.ev(e.args[1])
